@@ -1,7 +1,9 @@
 package rules
 
 import (
+	"fmt"
 	"go/types"
+	"os"
 	"sort"
 	"strings"
 
@@ -53,8 +55,19 @@ func ErrorDiscipline(c *Ctx, id string, floor int) {
 	c.R.Rule(id, "a failed step of the mechanism is not turned into success", floor,
 		"an error swallowed inside the mechanism's functions lets the reconcile go on (or report success) as if the step had succeeded")
 	var fns []*ssa.Function
+	isRoot := map[*ssa.Function]bool{}
+	for _, f := range c.Mech {
+		isRoot[f] = true
+	}
 	for _, f := range reachable(c, c.Mech, 2) {
 		fns = append(fns, closures(f)...)
+		if os.Getenv("XPCHECK_LIST_REACH") != "" && !isRoot[f] {
+			n := 0
+			for _, b := range f.Blocks {
+				n += len(b.Instrs)
+			}
+			fmt.Fprintf(os.Stderr, "REACH %s %s %d\n", id, load.FuncName(f), n)
+		}
 	}
 	sort.Slice(fns, func(i, j int) bool { return fns[i].Pos() < fns[j].Pos() })
 	statelessness(c, fns)
